@@ -223,7 +223,9 @@ def rule_fresh(ctx, res, f, cfg, name, paths, stored_val):
         res.undecided('R-C02-fresh', q, 'allocation loop shape',
                       'expected `while True` left by break / return',
                       fn.module.loc(alloc))
-        return fn, alloc, lpaths
+        # the counter rule reads the same loop: a loop it cannot read is
+        # not accused of stepping the counter elsewhere
+        return None
     CAND = 'self._name_for_id(self._next_name_id)'
     rej_all = None
     for p in exits:
@@ -603,6 +605,106 @@ def _keep_file_evaluated(ctx, res, cls, f):
               f.loc, semantic=True)
 
 
+def rule_factory_evaluated(ctx, res, rule='R-C02-fresh'):
+    """`get_short_name` evaluated (absint/cx.py) on a fresh factory per
+    configuration -- default, and with a keep file (stand-in names, among them
+    short ones the enumeration would produce) -- for 300 distinct long names,
+    enough to pass the first keyword-shaped candidates (`do`, `if`, `in`):
+
+      * two different names never get the same short name, asking again
+        gives the same answer;
+      * a generated name g is itself renamed by the factory (f(g) != g): a
+        name the factory leaves alone -- keyword, built-in, kept name -- is
+        never handed out, whatever set decides that;
+      * no generated name is a Lua / PICO-8 keyword of the reference list.
+
+    A witness is a violation whatever form the allocation loop is written in;
+    a clean run bounds the clause and leaves the universal argument to the
+    statement-form rules."""
+    from ..absint import cx as CX
+    from ..refs import lexical as RL
+    cls = ctx.model.cls(FACTORY)
+    q = FACTORY + '.get_short_name'
+    try:
+        f = ctx.model.func(q)
+    except Exception as e:
+        res.vanished(rule, q, 'get_short_name', str(e)[:80])
+        return
+    kept = {b'a', b'c', b'k', b'ab', b'score', b'_hidden'}
+    keywords = set(getattr(RL, 'KEYWORDS', ()))
+    inst = 'generated short names are pairwise distinct and never a name ' \
+        'the factory leaves unchanged (evaluated)'
+    bad = []
+    n_calls = 0
+    try:
+        for (what, kw) in (('default', {}),
+                           ('--keep-names-from-file', {
+                               'keep_names_from_file': 'names.txt'})):
+            cxi = CX.Cx(ctx.model, ctx.consts)
+            cxi.budget = max(getattr(cxi, 'budget', 0), 20000000)
+            cxi.hooks = {
+                FACTORY + '.read_names_file':
+                    lambda c, a, k, bound=None: set(kept),
+                'pico8.util:debug': lambda c, a, k, bound=None: None,
+            }
+            names = [b'name_%03d_x' % i for i in range(300)]
+
+            def go():
+                fac = cxi.call(CX.ClassVal(cls), [], dict(kw))
+                fn = cxi.getattr(fac, 'get_short_name')
+
+                def one(x):
+                    v = cxi.call(fn, [x], {})
+                    if isinstance(v, CX.Seq):
+                        if any(CX.is_sym(y) for y in v.items):
+                            raise CX.CxError('symbolic name')
+                        v = bytes(v.items)
+                    if not isinstance(v, (bytes, bytearray)):
+                        raise CX.CxError('short name is ' + type(v).__name__)
+                    return bytes(v)
+                outs = [one(x) for x in names]
+                again = [one(x) for x in names[:5] + names[-5:]]
+                selfmap = [(g, one(g)) for g in sorted(set(outs))]
+                return outs, again, selfmap
+            paths = cxi.explore(go)
+            if len(paths) != 1 or paths[0][0]:
+                raise CX.CxError('the allocation forks')
+            kind, val = paths[0][1]
+            if kind == 'raise':
+                bad.append('{}: raises {}'.format(what, val.tname))
+                continue
+            outs, again, selfmap = val
+            n_calls += len(outs)
+            seen = {}
+            for x, g in zip(names, outs):
+                if g in seen:
+                    bad.append('{}: {!r} and {!r} both become {!r}'.format(
+                        what, seen[g], x, g))
+                    break
+                seen[g] = x
+            if again != outs[:5] + outs[-5:]:
+                bad.append('{}: asking again for the same name gives a '
+                           'different short name'.format(what))
+            for g, fg in selfmap:
+                if fg == g:
+                    bad.append('{}: {!r} is renamed to {!r}, a name the '
+                               'factory itself leaves unchanged (keyword, '
+                               'built-in or kept name): two identifiers '
+                               'collide'.format(what, seen[g], g))
+                    break
+            kwhit = [g for g in outs if g in keywords]
+            if kwhit:
+                bad.append('{}: {!r} is renamed to the keyword {!r}'.format(
+                    what, seen[kwhit[0]], kwhit[0]))
+    except AnalysisError as e:
+        res.info(rule, q, inst, 'not followed: ' + str(e)[:120], f.loc)
+        return
+    res.check(not bad, rule, q, inst,
+              '{} allocations on fresh factories (default; keep file with '
+              'the names {})'.format(n_calls, sorted(kept)),
+              '; '.join(bad[:3]), f.loc, semantic=True)
+
+
 def rule_factory(ctx, res):
     model = ctx.model
     wq = 'pico8.lua.lua:LuaMinifyTokenWriter'
@@ -685,6 +787,7 @@ def run(ctx, res):
         rule_counter(ctx, res, f, cfg, site)
     rule_enum(ctx, res)
     rule_reserved(ctx, res)
+    rule_factory_evaluated(ctx, res)
     rule_factory(ctx, res)
     keep = {'keep_all_names', 'keep_names_from_file'}
     cli.rule_wiring(ctx, res, 'luamin', only_options=keep)
